@@ -43,12 +43,12 @@ theorem rerunIn_absent (e : Nat) (w : Int) : ∀ (t : RState) (st : St), e ∉ e
     intro st h
     simp only [effsOf] at h
     simp only [rerunIn, ih st h]
-  | rows e' sel lists row ks items ih =>
+  | rows e' en sel lists row ks items ih =>
     intro st h
     simp only [effsOf, List.mem_cons, not_or] at h
     have : ¬ e' = e := fun hh => h.1 hh.symm
     simp only [rerunIn, this, if_false, ih st h.2]
-  | rowCons k r rest ihr ihrest =>
+  | rowCons k ix r rest ihr ihrest =>
     intro st h
     simp only [effsOf, List.mem_append, not_or] at h
     simp only [rerunIn, ihr st h.1, ihrest st h.2]
@@ -437,7 +437,7 @@ theorem rerunIn_spec : ∀ (v : View) (t : RState), GoodP P0 v t → v.wf K = tr
     | _ => simp only [GoodP] at hg
   | «show» c a b _ _ => intro t _ _ hc; simp [View.core] at hc
   | scope sid d kid _ => intro t _ _ hc; simp [View.core] at hc
-  | forRows sel lists row _ => intro t _ _ hc; simp [View.core] at hc
+  | forRows en sel lists row _ => intro t _ _ hc; simp [View.core] at hc
   | forKeyed sel lists =>
     intro t hg hw _ hnd
     cases t with
